@@ -511,6 +511,7 @@ func (c *Compiler) checkFeatures() error {
 	filteredFeatures := newFeaturesMap()
 	for _, module := range c.modules {
 		m := module.GetModule()
+		verifPhase("features", m.Name())
 		dupChk := make(map[string]bool)
 		for _, feat := range m.ChildrenByType(parse.NodeFeature) {
 			if _, ok := dupChk[feat.Name()]; ok {
@@ -563,6 +564,7 @@ func (c *Compiler) checkIdentities() error {
 	// Get all identities, check for duplicates
 	for _, module := range c.modules {
 		mod := module.GetModule()
+		verifPhase("identities", mod.Name())
 		for _, ident := range mod.ChildrenByType(parse.NodeIdentity) {
 			name := mod.Name() + ":" + ident.Name()
 			if _, ok := ids[name]; ok {
@@ -576,6 +578,7 @@ func (c *Compiler) checkIdentities() error {
 	// Process derived identities, building
 	// identity tree.
 	for name, ident := range ids {
+		verifPhase("idbase", name)
 		for _, base := range ident.ChildrenByType(parse.NodeBase) {
 			mod, tIdent := c.getModuleAndReference(ident.Root(), base, parse.NodeIdentity)
 			tnm := mod.Name() + ":" + tIdent.Name()
@@ -591,6 +594,7 @@ func (c *Compiler) checkIdentities() error {
 	// Now we have an identity tree,
 	// check there are no cyclic references
 	for nme, _ := range ids {
+		verifPhase("idcycle", nme)
 		c.identityCheckCyclicRef(nme, ids, make(map[string]bool))
 	}
 
@@ -614,6 +618,7 @@ func (c *Compiler) ExpandModules() (err error) {
 	defer c.recover(&err)
 	//Attach submodules to modules
 	for mn, subm := range c.submodules {
+		verifPhase("attach", mn)
 		belongs := subm.GetModule().ChildByType(parse.NodeBelongsTo).Name()
 		mod, ok := c.modules[belongs]
 		if !ok {
@@ -626,8 +631,10 @@ func (c *Compiler) ExpandModules() (err error) {
 	//Process includes
 	for _, module := range c.modules {
 		r := module.GetModule()
+		verifPhase("includes", r.Name())
 		c.VerifyModuleIncludes(r, module.GetSubmodules())
 		for _, s := range module.GetSubmodules() {
+			verifPhase("subincludes", s.Name())
 			c.ProcessSubmoduleIncludes(s, module.GetSubmodules())
 		}
 		c.ProcessModuleIncludes(r, module.GetSubmodules())
@@ -638,6 +645,7 @@ func (c *Compiler) ExpandModules() (err error) {
 	for mn, module := range c.modules {
 		r := module.GetModule()
 		g.AddVertex(mn)
+		verifPhase("imports", mn)
 		for _, i := range r.ChildrenByType(parse.NodeImport) {
 			g.AddEdge(mn, i.Name())
 		}
@@ -660,10 +668,12 @@ func (c *Compiler) ExpandModules() (err error) {
 
 	// Check for cycles in all groupings before applying
 	for _, module := range c.modules {
+		verifPhase("groupings", module.GetModule().Name())
 		if err := c.validateModuleGroupings(module.GetModule()); err != nil {
 			c.error(module.GetModule(), err)
 		}
 		for _, sm := range module.GetSubmodules() {
+			verifPhase("subgroupings", sm.Name())
 			if err := c.validateModuleGroupings(sm); err != nil {
 				c.error(sm, err)
 			}
@@ -701,6 +711,7 @@ func (c *Compiler) BuildModules() (modules map[string]schema.Model, err error) {
 
 	modules = make(map[string]schema.Model)
 	for _, name := range c.modnames {
+		verifPhase("build", name)
 		module, ok := c.modules[name]
 		if ok {
 			newModule := c.BuildModule(module, module.GetModule())
